@@ -679,6 +679,23 @@ Section XEvalL.
     apply sd_mul_absorbs. now apply H.
   Qed.
 
+  (* a DiagonalOperator whose constructor check passed and whose values are absorbed by the leaf dtype *)
+  Lemma diag_leaf_ok p sd : absorbs x64 (pi_ty p) sd = true ->
+    match diag_leaf_shape (pi_shape p) (pi_axes p) (s_shape sd) with
+    | Some r => list_eqb Nat.eqb r (s_shape sd) | None => false end = true ->
+    diag_leaf x64 p sd = Some sd.
+  Proof.
+    unfold absorbs, diag_leaf, sd_ty. destruct (sd_dt sd) as [d|] eqn:Ed; [|discriminate]. cbn [option_map].
+    destruct (diag_leaf_shape (pi_shape p) (pi_axes p) (s_shape sd)) as [sh|]; [|discriminate]. intros H Hs.
+    apply ty_eqb_eq in H. apply list_eqb_nat_eq in Hs. subst sh. rewrite H. cbn [ST.tdt]. now rewrite (sd_eta sd _ Ed).
+  Qed.
+  Lemma diag_ok_eval p s : forallb (absorbs x64 (pi_ty p)) (flatten s) = true -> diag_ok p s = true ->
+    pmapo (diag_leaf x64 p) s = Some s.
+  Proof.
+    unfold diag_ok. intros Ha Hs. apply pmapo_id. rewrite forallb_forall in Ha, Hs. apply Forall_forall. intros sd Hin.
+    apply diag_leaf_ok; [now apply Ha|now apply Hs].
+  Qed.
+
   Lemma rot_leaf_ok t ash q u :
     sds_eqb q u && absorbs x64 t q && shape_absorbs ash q && sd_avail x64 q = true ->
     u = q /\ rot_leaf x64 t ash q u = Some q.
@@ -723,15 +740,19 @@ Section XEvalL.
   Proof. exact (proj2 (wrap_structs K i w x)). Qed.
 
   (* THE STAGE-2 THEOREM: under the guards the computed evaluation is the declared structure *)
-  Theorem xeval_honest_l : forall e : op, wfo e = true -> pnw e = true -> dtypes_available x64 e = true ->
-    xeval e (in_struct e) = Some (out_struct e).
+  Theorem xeval_honest_l : forall e : op, wfo e = true -> ctor_checked x64 info e = true -> pnw e = true ->
+    dtypes_available x64 e = true -> xeval e (in_struct e) = Some (out_struct e).
   Proof.
-    induction e as [i c si so p|i w e IH|i s|i k s|i l IH|i l IH|i b td l IH] using op_ind'; intros Hw Hg Hd.
+    induction e as [i c si so p|i w e IH|i s|i k s|i l IH|i l IH|i b td l IH] using op_ind'; intros Hw Hc Hg Hd.
     - (* primitives *)
-      rewrite prim_in, prim_out. cbn [Structs.xeval]. cbn [Structs.params_not_wider] in Hg. unfold prim_eval.
+      rewrite prim_in, prim_out. cbn [Structs.xeval]. cbn [Structs.params_not_wider] in Hg.
+      cbn [Structs.ctor_checked] in Hc. unfold prim_eval.
       destruct c; cbn [square_cls]; try (now rewrite struct_eqb_refl).
+      + (* broadcast diagonal: the declared structure is the traced one *)
+        destruct (ilookup info i) as [pp|]; [|discriminate].
+        destruct (pmapo (diag_leaf x64 pp) si) as [s'|]; [|discriminate]. apply struct_eqb_eq in Hc. now subst.
       + (* diagonal *) unfold scal_ok in Hg. destruct (ilookup info i) as [pp|] eqn:El; [|discriminate].
-        rewrite same_shapes_refl. now apply (scal_ok_eval i si pp El).
+        now apply diag_ok_eval.
       + (* rotation *) destruct (ilookup info i) as [pp|]; [|discriminate]. now apply rot_ok_eval.
       + (* HWP *) now rewrite Hg.
       + (* polariser *) apply andb_true_iff in Hg as [_ Hg].
@@ -739,15 +760,16 @@ Section XEvalL.
       + (* Toeplitz *) destruct (ilookup info i) as [pp|]; [|discriminate]. now apply toep_ok_eval.
     - (* lazy wrappers *)
       rewrite wrap_in, wrap_out. cbn [Structs.params_not_wider] in Hg. apply andb_true_iff in Hg as [Hgx Hgw].
+      cbn [Structs.ctor_checked] in Hc. apply andb_true_iff in Hc as [Hcx Hcw].
       cbn [Wf.wfo] in Hw. apply andb_true_iff in Hw as [Hwx Hsq].
-      pose proof (IH Hwx Hgx (dtypes_available_wrap K x64 i w e Hd)) as Hx.
+      pose proof (IH Hwx Hcx Hgx (dtypes_available_wrap K x64 i w e Hd)) as Hx.
       cbn [Structs.xeval]. destruct w.
       + rewrite Hx, struct_eqb_refl, Hgw. reflexivity.
       + rewrite Hx, struct_eqb_refl. reflexivity.
       + (* diagonal inverse: a lazy inverse, hence of a square operator *)
         cbn in Hsq. unfold is_square in Hsq. apply struct_eqb_eq in Hsq.
         unfold scal_ok in Hgw. destruct (ilookup info i) as [pp|] eqn:El; [|discriminate].
-        rewrite <- Hsq, same_shapes_refl. now apply (scal_ok_eval i _ pp El).
+        rewrite <- Hsq. now apply diag_ok_eval.
       + (* rotation transpose *)
         destruct e as [j c sj soj pj| | | | | |]; try discriminate. destruct c; try discriminate.
         cbn [Structs.params_not_wider] in Hgx. rewrite prim_in, prim_out. cbn [square_cls].
@@ -763,22 +785,62 @@ Section XEvalL.
       rewrite xeval_seval. apply seval_comp_step; [exact Hw|].
       rewrite wfo_comp in Hw. apply andb_true_iff in Hw as [_ Hall]. apply allwf_Forall in Hall.
       cbn [Structs.params_not_wider] in Hg. apply forallb_Forall in Hg. pose proof (dtypes_available_comp K x64 i l Hd) as Hdl.
-      clear Hd. induction IH as [|e r He _ IHr]; [constructor|]. inversion Hall; inversion Hg; inversion Hdl; subst.
+      cbn [Structs.ctor_checked] in Hc. apply forallb_Forall in Hc.
+      clear Hd. induction IH as [|e r He _ IHr]; [constructor|]. inversion Hall; inversion Hg; inversion Hdl; inversion Hc; subst.
       constructor; [rewrite <- xeval_seval; auto|auto].
     - (* sum *)
       rewrite xeval_seval. apply seval_add_step; [exact Hw|exact (proj2 (dtypes_available_node K x64 _ Hd))|].
       rewrite wfo_add in Hw. apply andb_true_iff in Hw as [_ Hall]. apply allwf_Forall in Hall.
       cbn [Structs.params_not_wider] in Hg. apply forallb_Forall in Hg. pose proof (dtypes_available_add K x64 i l Hd) as Hdl.
-      clear Hd. induction IH as [|e r He _ IHr]; [constructor|]. inversion Hall; inversion Hg; inversion Hdl; subst.
+      cbn [Structs.ctor_checked] in Hc. apply forallb_Forall in Hc.
+      clear Hd. induction IH as [|e r He _ IHr]; [constructor|]. inversion Hall; inversion Hg; inversion Hdl; inversion Hc; subst.
       constructor; [rewrite <- xeval_seval; auto|auto].
     - (* blocks *)
       rewrite xeval_seval. apply seval_block_step; [exact Hw|exact (proj2 (dtypes_available_node K x64 _ Hd))|].
       rewrite wfo_block in Hw. apply andb_true_iff in Hw as [_ Hall]. apply allwf_Forall in Hall.
       cbn [Structs.params_not_wider] in Hg. apply forallb_Forall in Hg. pose proof (dtypes_available_block K x64 i b td l Hd) as Hdl.
-      clear Hd. induction IH as [|e r He _ IHr]; [constructor|]. inversion Hall; inversion Hg; inversion Hdl; subst.
+      cbn [Structs.ctor_checked] in Hc. apply forallb_Forall in Hc.
+      clear Hd. induction IH as [|e r He _ IHr]; [constructor|]. inversion Hall; inversion Hg; inversion Hdl; inversion Hc; subst.
       constructor; [rewrite <- xeval_seval; auto|auto].
   Qed.
 End XEvalL.
+
+(* ====================================================================================== *)
+(* The constructors of the diagonal classes                                                *)
+(* DiagonalOperator accepted => mv keeps the shape of every leaf (the square declaration is honest) *)
+Lemma diag_leaf_checked_strict dsh axes lsh r : diag_leaf_checked true dsh axes lsh = Some r -> r = lsh.
+Proof.
+  unfold diag_leaf_checked. destruct (diag_leaf_shape dsh axes lsh) as [r'|]; [|discriminate]. cbn [andb].
+  destruct (list_eqb Nat.eqb r' lsh) eqn:E; cbn [negb]; [|discriminate]. intros H. inversion H; subst.
+  now apply list_eqb_nat_eq.
+Qed.
+Lemma diag_ctor_strict_l dsh spec leaves axes outs :
+  diag_ctor true dsh spec leaves = Some (axes, outs) -> outs = leaves /\ axes = spec_axes spec (List.length dsh).
+Proof.
+  unfold diag_ctor. destruct dsh as [|d0 dsh]; [discriminate|]. set (ax := spec_axes spec _).
+  destruct (ST.all_some (map (diag_leaf_checked true (d0 :: dsh) ax) leaves)) as [o|] eqn:E; [|discriminate].
+  cbn [option_map]. intros H. inversion H; subst. split; [|reflexivity]. clear H.
+  revert outs E. induction leaves as [|l ls IH]; intros outs E; cbn in E; [now inversion E|].
+  destruct (diag_leaf_checked true (d0 :: dsh) ax l) as [r|] eqn:El; [|discriminate].
+  destruct (ST.all_some (map (diag_leaf_checked true (d0 :: dsh) ax) ls)) as [o|]; [|discriminate].
+  cbn in E. inversion E; subst. rewrite (diag_leaf_checked_strict _ _ _ _ El), (IH o eq_refl). reflexivity.
+Qed.
+(* every operator DiagonalOperator accepts is accepted by BroadcastDiagonalOperator, with the same result *)
+Lemma diag_ctor_strict_broadcast_l dsh spec leaves r :
+  diag_ctor true dsh spec leaves = Some r -> diag_ctor false dsh spec leaves = Some r.
+Proof.
+  unfold diag_ctor. destruct dsh as [|d0 dsh]; [discriminate|]. set (ax := spec_axes spec _).
+  assert (H : forall o, ST.all_some (map (diag_leaf_checked true (d0 :: dsh) ax) leaves) = Some o ->
+                        ST.all_some (map (diag_leaf_checked false (d0 :: dsh) ax) leaves) = Some o).
+  { induction leaves as [|l ls IH]; intros o E; cbn in *; [exact E|].
+    unfold diag_leaf_checked in E at 1. unfold diag_leaf_checked at 1.
+    destruct (diag_leaf_shape (d0 :: dsh) ax l) as [r'|]; [|discriminate]. cbn [andb] in *.
+    destruct (negb (list_eqb Nat.eqb r' l)); [discriminate|].
+    destruct (ST.all_some (map (diag_leaf_checked true (d0 :: dsh) ax) ls)) as [o'|]; [|discriminate].
+    now rewrite (IH o' eq_refl). }
+  destruct (ST.all_some (map (diag_leaf_checked true (d0 :: dsh) ax) leaves)) as [o|]; [|discriminate].
+  intros E. now rewrite (H o eq_refl).
+Qed.
 
 (* ====================================================================================== *)
 (* Sizes and promoted dtypes                                                                *)
